@@ -36,6 +36,7 @@ func c06(c *core.Ctx) {
 
 	c.Rule("C06.accept", "each side accepts every chunk up to the size it advertised: the size tests of Conn.Receive reject exactly MessageSize > Acknowledge.ReceiveBufSize and MessageSize < hdrlen — no `>=`, no other bound", 3)
 	c06Accept(c, "C06.accept")
+	c06Overhead(c, "C06.overhead")
 
 	cg := c.P.CallGraph()
 	// consume
